@@ -11,7 +11,7 @@ MANIFEST = {
     'engine': 'E1',
     'technique': 'bounded exhaustive enumeration of key vectors x lookup values x match modes x table shapes x spellings '
                  'on the real code vs linear-scan reference definitions',
-    'text': 'MATCH is run on every strictly ascending / descending key vector of length <= 4 over {1,3,5,7}, {b,d,f}, '
+    'text': 'COUNTIF/SUMIF/AVERAGEIF are also called with a two-element array of criteria (every ordered pair of 12 criteria) over ranges holding numeric text: each element must equal the same criterion evaluated alone. ' 'MATCH is run on every strictly ascending / descending key vector of length <= 4 over {1,3,5,7}, {b,d,f}, '
             '{FALSE,TRUE} and their typed-block mixes with every lookup value inside, between, below, above and of another type, '
             'and in exact mode on every vector of length <= 4 over {1,2,"a","A","b*",TRUE,blank} (keys, absent values, wildcard patterns ? * ~*, the word "empty"); INDEX, VLOOKUP, HLOOKUP and LOOKUP '
             'on every table shape up to 4x4 (6x6 thorough) with every row/column index from 0 to size+1; COUNTIF/SUMIF/AVERAGEIF on every '
